@@ -226,7 +226,8 @@ def execute(ctx, plan, prop):
                  % (pf.balls, sim.now, pf.num_balls_requested, [(d.name, d.state) for d in devices]))
         elif pf.balls >= 0:
             neg_seen[0] = 0
-        if m.ball_controller.num_balls_known > world.total():
+        if m.ball_controller.num_balls_known > world.total() and not world.uncountable_devs:
+            # (a device that lost track of a ball for a sensing reason rediscovers it later as a "new" ball)
             viol("known_above_world", "num_balls_known", "num_balls_known=%d but only %d balls exist"
                  % (m.ball_controller.num_balls_known, world.total()))
     # sampled after every loop callback: exactly the states other tasks and event handlers can observe
